@@ -1,15 +1,20 @@
 #!/bin/bash
-# try_mutant.sh <patch.diff> <PROP> [extra bin/check args]  — apply a seeded change to /repo,
-# run the baseline suite and one check against it, undo it.  Prints a one-line verdict.
-P="$1"; PROP="$2"; shift 2
+# try_mutant.sh <patch.diff> <PROP> [extra bin/check args]  — apply a seeded change to the
+# repository (default /repo, or $VERIF_REPO), run the baseline suite and one check against it,
+# undo it.  Prints a one-line verdict.  The check's evidence goes to a scratch directory.
+P="$(readlink -f "$1")"; PROP="$2"; shift 2
 export GOFLAGS=-mod=mod GOPROXY=off GOSUMDB=off
-cd /repo || exit 2
-if [ -n "$(git status --porcelain)" ]; then echo "try_mutant: /repo not clean" >&2; exit 2; fi
+VERIF="$(cd "$(dirname "$0")/.." && pwd)"
+REPO="${VERIF_REPO:-/repo}"
+cd "$REPO" || exit 2
+if [ -n "$(git status --porcelain)" ]; then echo "try_mutant: $REPO not clean" >&2; exit 2; fi
 git apply "$P" || { echo "try_mutant: patch does not apply"; exit 2; }
-trap 'git -C /repo checkout -- . ' EXIT
-go build ./... >/tmp/tm.build 2>&1 || { echo "RESULT $PROP $(basename $(dirname $P)): DOES-NOT-BUILD"; tail -3 /tmp/tm.build; exit 0; }
+trap 'git -C "$REPO" checkout -- . ' EXIT
+TMPB=$(mktemp)
+go build ./... >"$TMPB" 2>&1 || { echo "RESULT $PROP $(basename $(dirname $P)): DOES-NOT-BUILD"; tail -3 "$TMPB"; rm -f "$TMPB"; exit 0; }
+rm -f "$TMPB"
 T=$(go test -vet=off -count=1 ./... 2>&1 | grep -c "^FAIL")
-OUT=$(VERIF_EVIDENCE_DIR=/tmp/mutant-evidence /verif/bin/check $PROP "$@" 2>&1)
+OUT=$(VERIF_REPO="$REPO" VERIF_EVIDENCE_DIR=/tmp/mutant-evidence "$VERIF/bin/check" $PROP "$@" 2>&1)
 RC=$?
 V=$(echo "$OUT" | grep -A1 "^VIOLATION" | grep -v "^VIOLATION\|^--" | head -4 | tr '\n' ';')
 echo "RESULT $PROP $(basename $(dirname $P)): suite_fail_pkgs=$T check_rc=$RC $(echo "$OUT" | grep '^check:' | tail -1 | sed 's/check: //') :: $V"
